@@ -17,11 +17,12 @@ RULE = ('QRCode.matrix_iter (plain and verbose) over all 44 symbol sizes x borde
         'scale) iterator cases + (kind, size, keyword subset) colourful cases')
 ASSUMPTIONS = ['refmodel/qr.py function_map, refmodel/raster.py, refmodel/vector.py, refmodel/colors.py',
                'type codes are the documented constants of segno.consts (6, 8, 10, 12, 14, 16, 512, 4, 18)']
-REQUIRED = ['evaluations', 'verbose_modules_checked', 'plain_rows_checked', 'iter_refusals', 'iter_refusals_direct', 'direct_utils_routes_checked', 'colourful:png', 'colourful:svg',
+REQUIRED = ['cases_under_python_O', 'evaluations', 'verbose_modules_checked', 'plain_rows_checked', 'iter_refusals', 'iter_refusals_direct', 'direct_utils_routes_checked', 'colourful:png', 'colourful:svg',
             'colourful:ppm', 'colourful_two_colours_nonuniform', 'all_44_sizes_iterated']
 EXHAUSTIVE = {'quick': 'every module of all 44 symbol sizes through matrix_iter(verbose=True)',
               'thorough': 'every module of all 44 symbol sizes through matrix_iter(verbose=True)'}
 TIMEOUT = {'quick': 3600, 'thorough': 21600}
+OPT_SLICE = {'quick': 120, 'thorough': 1500}     # cases re-run by one more worker under python -O (core.run_sharded)
 
 POOL = ['red', 'blue', 'gold', 'navy', 'teal', 'orchid', '#abc', '#123456', '#fe12dc', (1, 2, 3), (200, 100, 50), (9, 8, 7),
         'green', 'purple', 'orange', 'crimson', 'khaki', '#0f0', '#00f', 'black', 'white', 'silver', 'maroon', 'tan',
@@ -95,6 +96,16 @@ def gen_cases(tier, seed):
             kw['border'] = rng.choice([0, 1, 2, 4, None])
         if kind == 'svg' and rng.random() < 0.2:
             kw['draw_transparent'] = True
+        if kind == 'svg' and rng.random() < 0.45:
+            # document options change what is written around / inside the paths (attribute lengths, order) - never
+            # which module gets which colour
+            for opt, vals in (('lineclass', [None, 'ln', 'a b']), ('svgclass', [None, 'c']), ('nl', [False]), ('xmldecl', [False]),
+                              ('svgns', [False]), ('omitsize', [True]), ('svgid', ['i1']), ('title', ['T']), ('desc', ['D'])):
+                if rng.random() < 0.35:
+                    kw[opt] = rng.choice(vals)
+        if rng.random() < 0.15 and tag == 'multi' and (not isinstance(v, str)):
+            # a colour used by exactly one module (the dark module): the shortest possible path
+            kw['dark_module'] = rng.choice(['red', '#f0f', 'gold', '#123'])
         cases.append({'kind': 'colourful', 'out': kind, 'version': v, 'seed': rng.randrange(1 << 30), 'kw': kw, 'tag': tag})
     rng.shuffle(cases)
     return cases
